@@ -2,7 +2,8 @@ import Driver.Util
 import BtcModel.Model.Tree
 import BtcModel.Model.Watchdog
 import Driver.Canister
-import BtcModel.Model.Canister
+import Driver.Transform
+import BtcModel.Model.Endpoints
 
 open Btc
 
@@ -19,6 +20,9 @@ structure DState where
   /-- decode oracle: what the library decoders return for the blobs seen so far -/
   decBlocks : List (String × Option Block) := []
   decHeaders : List (String × Option NextHeader) := []
+  /-- C11 stream: synthetic header store (height, header) and its network -/
+  hdrStore : List (Nat × Header.Hdr) := []
+  hdrNet : Tree.Net := .regtest
 
 def statusCode : Watchdog.Status → Nat
   | .notEnoughData => 0 | .ok => 1 | .ahead => 2 | .behind => 3
@@ -97,52 +101,46 @@ def showRefusal : State.Refusal → String
   | .wrongNetwork => "trap wrong-network"
   | .notSynced => "trap not-synced"
 
+def showTrap : State.CallTrap → String
+  | .refused r => showRefusal r
+  | .cycles => "trap cycles"
+  | .other => "trap other"
+
 /-- a gated endpoint call: `(new state, result text, accepted cycles)` -/
 def endpointCall (d : DState) (s : State) (ep : String) (reqNet : Tree.Net) (avail ins : Nat)
     (addr : State.AddrArg) (cc start : Nat) : State × String × Nat :=
   let env := envOf d
-  match s.guard env reqNet true with
-  | some r => (s, showRefusal r, 0)
-  | none =>
-    let f := s.fees
-    if ep == "get_utxos" || ep == "get_utxos_query" then
-      let res := s.getUtxos addr (.minConf cc) Btc.Gen.maxUtxosPerResponse
-      let (text, isErr, isTrap) := match res with
-        | .ok r => (s!"ok {r.tipHeight}", false, false)
-        | .err _ => ("err", true, false)
-        | .trap _ => ("trap other", false, true)
-      if ep == "get_utxos_query" then (s, text, 0)
-      else match State.chargeMetered avail f.getUtxosBase f.getUtxosCyclesPerTenInstructions f.getUtxosMaximum ins isErr with
-        | none => (s, "trap " ++ (if avail < f.getUtxosMaximum || avail < f.getUtxosBase then "cycles" else "other"), 0)
-        | some acc => if isTrap then (s, text, 0) else (s, text, acc)
-    else if ep == "get_balance" || ep == "get_balance_query" then
-      let res := s.getBalance addr cc
-      let (text, isTrap) := match res with
-        | .ok v => (s!"ok {v}", false)
-        | .err _ => ("err", false)
-        | .trap _ => ("trap other", true)
-      if ep == "get_balance_query" then (s, text, 0)
-      else match State.chargeFlat avail f.getBalance f.getBalanceMaximum with
-        | none => (s, "trap cycles", 0)
-        | some acc => if isTrap then (s, text, 0) else (s, text, acc)
-    else if ep == "get_block_headers" then
-      match State.chargeFlat avail f.getBlockHeadersBase f.getBlockHeadersMaximum with
-      | none => (s, "trap cycles", 0)
-      | some _ =>
-        let res := s.getBlockHeaders Btc.Gen.maxBlockHeadersPerResponse start none
-        let (text, isErr) := match res with
-          | .ok (tip, _) => (s!"ok {tip}", false)
-          | .error _ => ("err", true)
-        match State.chargeMetered avail f.getBlockHeadersBase f.getBlockHeadersCyclesPerTenInstructions f.getBlockHeadersMaximum ins isErr with
-        | none => (s, "trap other", 0)
-        | some acc => (s, text, acc)
-    else
-      match State.chargeFlat avail f.getCurrentFeePercentiles f.getCurrentFeePercentilesMaximum with
-      | none => (s, "trap cycles", 0)
-      | some acc =>
-        match s.feePercentiles Btc.Gen.numTransactions with
-        | none => (s, "trap other", 0)
-        | some (s', p) => (s', s!"ok {p.length}", acc)
+  let r : State.DataReq := { reqNet := reqNet, available := avail, instructions := ins, addr := addr,
+                             minConf := cc, start := start, limit := Btc.Gen.maxUtxosPerResponse }
+  let showU (q : State.QResult State.UtxosResponse) : String := match q with
+    | .ok v => s!"ok {v.tipHeight}" | .err _ => "err" | .trap _ => "trap other"
+  let showB (q : State.QResult Nat) : String := match q with
+    | .ok v => s!"ok {v}" | .err _ => "err" | .trap _ => "trap other"
+  if ep == "get_utxos" then
+    match s.callGetUtxos env r with
+    | .trap t => (s, showTrap t, 0)
+    | .answered a acc s' => (s', showU a, acc)
+  else if ep == "get_utxos_query" then
+    match s.callGetUtxosQuery env r with
+    | .trap t => (s, showTrap t, 0)
+    | .answered a acc s' => (s', showU a, acc)
+  else if ep == "get_balance" then
+    match s.callGetBalance env r with
+    | .trap t => (s, showTrap t, 0)
+    | .answered a acc s' => (s', showB a, acc)
+  else if ep == "get_balance_query" then
+    match s.callGetBalanceQuery env r with
+    | .trap t => (s, showTrap t, 0)
+    | .answered a acc s' => (s', showB a, acc)
+  else if ep == "get_block_headers" then
+    match s.callGetBlockHeaders env r with
+    | .trap t => (s, showTrap t, 0)
+    | .answered (.ok (tip, _)) acc s' => (s', s!"ok {tip}", acc)
+    | .answered (.error _) acc s' => (s', "err", acc)
+  else
+    match s.callFeePercentiles env r with
+    | .trap t => (s, showTrap t, 0)
+    | .answered p acc s' => (s', s!"ok {p.length}", acc)
 
 /-- canister ops (`c ...`) -/
 def stepCanister (d : DState) (ws : List String) : DState × String :=
@@ -189,15 +187,10 @@ def stepCanister (d : DState) (ws : List String) : DState × String :=
     let (s', text, acc) := endpointCall d s ep (parseNet net) avail.toNat! ins.toNat! (parseAddrArg tok) cc.toNat! start.toNat!
     ({ d with st := some s' }, s!"{text} accepted={acc} unchanged=1")
   | ["sendtx", net, avail, len, wf], some s =>
-    match s.guard (envOf d) (parseNet net) false with
-    | some r => (d, s!"{showRefusal r} accepted=0 counted=0 forwarded=none")
-    | none =>
-      match State.chargeSend avail.toNat! s.fees.sendTransactionBase s.fees.sendTransactionPerByte len.toNat! with
-      | none => (d, "trap cycles accepted=0 counted=0 forwarded=none")
-      | some acc =>
-        let (s', fwd) := s.sendTransaction (wf == "wellformed=1")
-        if fwd then ({ d with st := some s' }, s!"ok accepted={acc} counted=1 forwarded={net}:same")
-        else (d, s!"err MalformedTransaction accepted={acc} counted=0 forwarded=none")
+    match s.callSendTransaction (envOf d) (parseNet net) avail.toNat! len.toNat! (wf == "wellformed=1") with
+    | .trap t => (d, s!"{showTrap t} accepted=0 counted=0 forwarded=none")
+    | .answered true acc s' => ({ d with st := some s' }, s!"ok accepted={acc} counted=1 forwarded={net}:same")
+    | .answered false acc _ => (d, s!"err MalformedTransaction accepted={acc} counted=0 forwarded=none")
   | ["q", "synced"], some s => (d, if s.isSynced Btc.Gen.syncedThreshold then "1" else "0")
   | ["init", net, thr, blk], _ =>
     match State.new thr.toNat! (parseNet net) (parseBlock blk) with
@@ -275,6 +268,11 @@ def stepCanister (d : DState) (ws : List String) : DState × String :=
         (d, s!"{chain.length - 1} {hash64 tip.hash} {canonUtxos (Spec.ledgerFor (strBytes addr) chain)}")
   | _, _ => (d, "bad-op")
 
+def synthStore (hs : List (Nat × Header.Hdr)) (tip : Nat) : Header.Store :=
+  { getByHash := fun h => (hs.find? (fun p => p.2.hash == h)).map (·.2)
+    getByHeight := fun ht => (hs.find? (fun p => p.1 == ht)).map (·.2)
+    height := tip }
+
 /-- One protocol line → new state and the model's observation. -/
 def step (st : DState) (ws : List String) : DState × String :=
   match ws with
@@ -287,6 +285,37 @@ def step (st : DState) (ws : List String) : DState × String :=
     ({ st with wdStore := store },
       s!"{statusCode d.1} {showOptNat d.2.1} {showOptInt d.2.2.1} {showOptBool d.2.2.2}")
   | "c" :: rest => stepCanister st rest
+  | ["t", ep, status, nh, body, parsed] => (st, stepTransform ep status nh body parsed)
+  | ["b", "validate", blk] =>
+    match State.validateBody (parseBlock blk) with
+    | none => (st, "ok")
+    | some .noTransactions => (st, "NoTransactions")
+    | some .invalidCoinbase => (st, "InvalidCoinbase")
+    | some .invalidMerkleRoot => (st, "InvalidMerkleRoot")
+    | some .duplicateTransactions => (st, "DuplicateTransactions")
+  | ["h", "store", net, items] =>
+    let hs := (parseList items ';').filterMap (fun it => match splitOnChar it ':' with
+      | [ht, h, p, t, b] => some (ht.toNat!, (⟨hexToNat h, hexToNat p, t.toNat!, b.toNat!⟩ : Header.Hdr))
+      | _ => none)
+    ({ st with hdrStore := hs, hdrNet := parseNet net }, "-")
+  | ["h", "next", ph, ts] =>
+    let store := synthStore st.hdrStore ph.toNat!
+    match store.getByHeight ph.toNat! with
+    | none => (st, "bad-op")
+    | some p =>
+      match Header.nextTarget st.hdrNet store p ph.toNat! ts.toNat! with
+      | none => (st, "trap")
+      | some t => (st, natToHex t 64)
+  | ["h", "ts", ph, ct, now] =>
+    let store := synthStore st.hdrStore ph.toNat!
+    match store.getByHeight ph.toNat! with
+    | none => (st, "bad-op")
+    | some p =>
+      match Header.timestampCheck store ⟨0, p.hash, ct.toNat!, p.bits⟩ now.toNat! with
+      | none => (st, "ok")
+      | some .tooFarInFuture => (st, "future")
+      | some .headerIsOld => (st, "old")
+      | some _ => (st, "other")
   | _ => (st, "bad-op")
 
 partial def loop (h : IO.FS.Stream) (out : IO.FS.Stream) (st : DState) : IO Unit := do
